@@ -46,7 +46,7 @@ ASSUMPTIONS = [
     "'same continuation' is judged on the first iterate after the restart with the calibrated tolerance of DESIGN 7.2",
     "recovery with a gradient scaler is judged under C05 (known finding there), not here",
 ]
-PLAN_TIMEOUT = 240
+PLAN_TIMEOUT = 600
 
 
 def gen(rng, tier, index):
